@@ -55,10 +55,14 @@ class FakeTracer:
 
 
 SYMCELLS = (0, 0x3FFF, 0xBFFF)      # offsets into 48K RAM made symbolic (each symbolic cell multiplies the RLE coder's paths)
+SYMCELLS_T = (0, 1, 0x3FFF, 0x4000, 0xBFFE, 0xBFFF)       # thorough: both ends of every 16K page, neighbouring cells
+BANKCELLS = {0: (0,), 5: (0x3FFF,), 7: (0x3FFF,)}
+BANKCELLS_T = {b: (0, 0x3FFF) for b in range(8)}
 
 
 def check_restore(item):
-    _, fmt, machine = item
+    _, fmt, machine = item[:3]
+    deep = len(item) > 3 and item[3] == 'thorough'
     st = Stats()
     res = new_res()
     import skoolkit.snapshot as snap
@@ -78,7 +82,7 @@ def check_restore(item):
         cells = {}
         if machine == '48K':
             memory = [0] * 65536
-            for k, off in enumerate(SYMCELLS):
+            for k, off in enumerate(SYMCELLS_T if deep else SYMCELLS):
                 v = sym_int('m%d' % k, 0, 255)
                 memory[0x4000 + off] = v
                 cells[0x4000 + off] = v
@@ -86,8 +90,8 @@ def check_restore(item):
         else:
             banks = [[0] * 0x4000 for _ in range(8)]
             o7 = sym_int('o7ffd', 0, 255)
-            for b in (0, 5, 7):
-                for k, off in enumerate((0x3FFF,) if b else (0,)):
+            for b, offs in sorted((BANKCELLS_T if deep else BANKCELLS).items()):
+                for k, off in enumerate(offs):
                     v = sym_int('m%d_%d' % (b, k), 0, 255)
                     banks[b][off] = v
                     cells[(b, off)] = v
@@ -236,13 +240,13 @@ def main():
         ok, detail = replay(harness.load_case(args.replay))
         print(('REPRODUCED: ' if ok else 'not reproduced: ') + detail)
         return 1 if ok else 0
-    items = [('restore', fmt, machine) for fmt in ('z80', 'szx') for machine in ('48K', '128K', '+2')]
+    items = [('restore', fmt, machine, args.tier) for fmt in ('z80', 'szx') for machine in ('48K', '128K', '+2')]
     if args.only:
         items = [i for i in items if args.only in harness.item_name(i)]
     rep = harness.Report(
         PROP, args,
         functions=['skoolkit.simutils.get_state / get_registers (as used by from_snapshot)', 'skoolkit.snapshot.write_snapshot, Z80 / SZX writers and readers, Memory.ram', 'skoolkit.snapshot.Snapshot.get'],
-        bounds={'state': 'all 30 register slots (T over one frame), border, FE, 7FFD, FFFD, 16 AY registers symbolic; %d RAM cells symbolic (48K) / 3 cells in banks 0, 5, 7 (128K), the rest zero' % len(SYMCELLS),
+        bounds={'state': 'all 30 register slots (T over one frame), border, FE, 7FFD, FFFD, 16 AY registers symbolic; %d RAM cells symbolic (48K) / %d cells in %d banks (128K), the rest zero' % (len(SYMCELLS_T if args.tier == 'thorough' else SYMCELLS), sum(len(v) for v in (BANKCELLS_T if args.tier == 'thorough' else BANKCELLS).values()), len(BANKCELLS_T if args.tier == 'thorough' else BANKCELLS)),
                 'outside': 'the instruction-level determinism this rests on (C05/C06), trace.run option handling, the trace loop itself (its next-interrupt bookkeeping is recomputed from T on entry), SNA, the C simulator object construction'},
         assumptions=['numeral tokens abstract format()/int(); zlib is an invertible stub'],
         stubs=['Z80.write / SZX.write capture data() instead of writing a file', 'tracer object with border, outfe, outfffd, ay attributes', 'bytes/bytearray/zlib/int/isinstance shims in snapshot, simutils, skoolkit'],
